@@ -332,8 +332,33 @@ def session_envelope(ctx):
                     if ln > 0:
                         scen.append(('size-%d%+d' % (target, delta), [kdrv.get('x' * ln)], {}, None))
                         sized[(version, 'size-%d%+d' % (target, delta))] = target + delta
+            # objects for the wrapped Get: 1 = wrapping key (Active, Wrap Key), 2 = a 16-byte key, 3 = secret data
+            from kmip.core import objects as cobjects
+            OT = enums.ObjectType
+            wrapspec = lambda: cobjects.KeyWrappingSpecification(
+                wrapping_method=enums.WrappingMethod.ENCRYPT,
+                encryption_key_information=cobjects.EncryptionKeyInformation(
+                    unique_identifier='1',
+                    cryptographic_parameters=kdrv.crypto_params(block_cipher_mode=enums.BlockCipherMode.NIST_KEY_WRAP)),
+                encoding_option=enums.EncodingOption.NO_ENCODING)
+            setup = [
+                ('register-wrapping-key', [kdrv.register(OT.SYMMETRIC_KEY, mask=(M.WRAP_KEY, M.ENCRYPT, M.DECRYPT))], {}, None),
+                ('activate-wrapping-key', [kdrv.activate('1')], {}, None),
+                ('register-key', [kdrv.register(OT.SYMMETRIC_KEY)], {}, None),
+                ('register-secret-data', [kdrv.register(OT.SECRET_DATA, mask=(M.EXPORT,))], {}, None),
+            ]
+            scen += [
+                ('get-plain', [kdrv.get('2')], {}, None),
+                ('get-wrapped-key', [kdrv.get('2', wrap=wrapspec())], {}, None),
+                ('get-wrapped-secret-data', [kdrv.get('3', wrap=wrapspec())], {}, None),
+                ('get-wrapped-in-batch', [kdrv.get('2', wrap=wrapspec()), kdrv.get('2')], {}, None),
+                ('too-large-multi', [kdrv.query(), kdrv.query()], {'max_size': 64}, None),
+                ('too-large-multi-continue', [kdrv.get('999'), kdrv.query(), kdrv.query()],
+                 {'max_size': 64, 'batch_option': enums.BatchErrorContinuationOption.CONTINUE}, None),
+                ('unencodable-multi', [create(), create()], {}, ('unencodable',)),
+            ]
             rng.shuffle(scen)
-            scen = scen + [('create-again', [create()], {}, None)]
+            scen = setup + scen + [('create-again', [create()], {}, None)]
             stream = b''
             for name, items, kw, fault in scen:
                 stream += sessdrv.encode_request(eng.build(items, version=version, **kw), version)
